@@ -191,6 +191,25 @@ def run(ctx):
                               "%s builds the new element with list-initialisation %s: for element types with an initializer_list constructor the forwarded arguments become the list's contents "
                               "(the element differs from what emplace on a std container yields)" % (f.name, fmt(n)), (f, n.get("ln")), why_ok=fmt(n))
     ctx.need("R07.6", "element constructions from the forwarded pack", nem, 2)
+    # a forwarding-reference parameter keeps the caller's value category: an lvalue argument (`v.emplace_back(v[0])`, the same
+    # named value appended twice) must still hold its value afterwards, so the parameter is passed on with std::forward only
+    nfw = 0
+    for f in methods:
+        if not f.is_pattern:
+            continue
+        for p0 in f.params:
+            if not p0.get("fwd"):
+                continue
+            tn = re.sub(r"\W.*", "", p0.get("type") or "")
+            if sum(1 for q in f.params if re.search(r"\b%s\b" % re.escape(tn), q.get("type") or "")) != 1:
+                continue  # the parameter's type is deduced from another argument as well: lvalues cannot bind
+            nfw += 1
+            moved = [(n.get("ln"), fmt(n)) for _, _, e in f.roots() for n in walk(e["expr"]) if n.get("k") == "call" and (n.get("name") or "") in ("std::move", "move")
+                     and any(isinstance(r, dict) and r.get("k") == "ref" and r.get("decl") == "param:" + p0["name"] for a in n.get("args", []) for r in walk(a))]
+            ctx.check(not moved, "R07.6", f, "forwarded-not-moved:%s:%s" % (C06._sig(f), p0["name"]),
+                      "%s passes its forwarding-reference parameter `%s` on with %s: an lvalue argument is moved from - `v.%s(v[0])` empties an element of the container itself and appending the "
+                      "same named value twice stores an empty second element" % (f.name, p0["name"], moved[0][1] if moved else "", f.name), (f, moved[0][0] if moved else None), why_ok="only forwarded")
+    ctx.need("R07.6", "forwarding-reference parameters of fixed_vector members", nfw, 2)
     # a range insert/append traverses [first, last) once: the iterator type is unconstrained, an input-iterator range is
     # consumed by the first walk (std::distance, a counting loop) and a second walk (std::copy) reads nothing new
     for f in methods:
